@@ -10,12 +10,12 @@ import (
 )
 
 var monitorGuards = []guardSpec{
-	{"channelmonitor.monitoredChannel", "restartedAt", "channelmonitor.monitoredChannel.restartLk", true, "in-flight marker"},
-	{"channelmonitor.monitoredChannel", "restartQueued", "channelmonitor.monitoredChannel.restartLk", true, "queued restart"},
-	{"channelmonitor.monitoredChannel", "consecutiveRestarts", "channelmonitor.monitoredChannel.restartLk", true, "attempt counter"},
-	{"channelmonitor.monitoredChannel", "cancel", "channelmonitor.monitoredChannel.shutdownLk", true, "shutdown marker"},
-	{"channelmonitor.monitoredChannel", "unsub", "channelmonitor.monitoredChannel.shutdownLk", true, "subscription"},
-	{"channelmonitor.Monitor", "channels", "channelmonitor.Monitor.lk", true, "monitored channels"},
+	{"channelmonitor.monitoredChannel", "restartedAt", "channelmonitor.monitoredChannel.restartLk", true, "in-flight marker", false},
+	{"channelmonitor.monitoredChannel", "restartQueued", "channelmonitor.monitoredChannel.restartLk", true, "queued restart", false},
+	{"channelmonitor.monitoredChannel", "consecutiveRestarts", "channelmonitor.monitoredChannel.restartLk", true, "attempt counter", false},
+	{"channelmonitor.monitoredChannel", "cancel", "channelmonitor.monitoredChannel.shutdownLk", true, "shutdown marker", false},
+	{"channelmonitor.monitoredChannel", "unsub", "channelmonitor.monitoredChannel.shutdownLk", true, "subscription", false},
+	{"channelmonitor.Monitor", "channels", "channelmonitor.Monitor.lk", true, "monitored channels", false},
 }
 
 func init() {
